@@ -409,8 +409,10 @@ class MacroProgram(ElementProgram):
             CASE = skip
         else:
             value = nodes.Value(clause)
-            for switch in reversed(self._switches):
-                if switch is not None:
+            # The element's own switch (the last entry) is for its
+            # children; a case always refers to a switch of a parent.
+            for parent_switch in reversed(self._switches[:-1]):
+                if parent_switch is not None:
                     break
             else:
                 raise LanguageError(
@@ -423,14 +425,17 @@ class MacroProgram(ElementProgram):
                     nodes.Condition(
                         nodes.And([
                             nodes.BinOp(
-                                switch, nodes.IsNot, self._cancel_marker),
+                                parent_switch, nodes.IsNot,
+                                self._cancel_marker),
                             nodes.Or([
-                                nodes.BinOp(value, nodes.Equals, switch),
+                                nodes.BinOp(
+                                    value, nodes.Equals, parent_switch),
                                 nodes.BinOp(
                                     value, nodes.Equals, self.default_marker)
                             ])
                         ]),
-                        nodes.Cancel([switch], node, self._cancel_marker),
+                        nodes.Cancel(
+                            [parent_switch], node, self._cancel_marker),
                     ))
 
         # tal:repeat
